@@ -1,7 +1,8 @@
-/- C12 helper lemmas, float part: everything `render_float` / `render_float_sci` / the `%g` arm of
-   `format_code` do AFTER digit generation (sign, `#`, zero padding, width, trailing-zero
-   stripping, exponent text, fixed/exponent form selection) equals the reference text, for every
-   flag set, width, precision and all digit data. -/
+/- C12 helper lemmas, float part: everything `render_float_digits` / `render_sci_digits` / the `%g`
+   arm of `format_code` do with the text that Rust's float formatting returned (split at the point,
+   sign, `#`, zero padding, width, trailing-zero stripping, exponent text) equals the reference
+   text, for every flag set, width, precision and ALL digit data — whether or not they are the
+   right digits of the number.  Proofs/FormatExact.lean instantiates this with the exact digits. -/
 import JrsVerif.Proofs.Format
 
 set_option linter.unusedSimpArgs false
@@ -134,95 +135,137 @@ theorem stripZeros_eq_nil_iff (l : List Char) : stripZeros l = [] ↔ ∀ x ∈ 
 
 theorem trimZeros_eq (l : List Char) : trimZeros l = stripZeros l := rfl
 
-/-! ## `render_float` -/
+/-! ## the text of a decimal number, and how the code takes it apart -/
 
-/-- the digit data of one precision is what the digit pipeline can produce: both parts are
-    doubles, and the fraction is a remainder modulo `10^q` -/
-def DigOK (q : Nat) (d : FDig) : Prop := d.whole < DBL_BOUND ∧ d.frac < DBL_BOUND ∧ d.frac < 10 ^ q
+theorem decText_eq (n : Nat) : FormatSpec.decText n = dec n := rfl
+
+/-- the digit data of one precision: the integer part has a realistic size (every finite double is
+    far below), the fraction is a remainder modulo `10^q` -/
+def DigOK (q : Nat) (d : FDig) : Prop := d.whole < 2 ^ 4000 ∧ d.frac < 10 ^ q
 
 /-- fraction digits, zero filled on the left to `q` places -/
 def fracDigits (q : Nat) (d : FDig) : List Char := zeros (q - (dec d.frac).length) ++ dec d.frac
+
+theorem fracText_eq (q : Nat) (d : FDig) : FormatSpec.fracText q d = fracDigits q d := rfl
+
+theorem plainText_eq (q : Nat) (d : FDig) :
+    FormatSpec.plainText q d = dec d.whole ++ (if q = 0 then [] else '.' :: fracDigits q d) := rfl
 
 theorem fracDigits_length (q : Nat) (d : FDig) (hq : 1 ≤ q) (h : d.frac < 10 ^ q) :
     (fracDigits q d).length = q := by
   have := dec_length_le d.frac q hq h
   simp only [fracDigits, zeros, List.length_append, List.length_replicate]; omega
 
-/-- the part after the integer digits as `render_float` writes it -/
-def fracTail (q : Nat) (d : FDig) (alt trailing : Bool) : List Char :=
-  if q = 0 then (if alt then ['.'] else [])
-  else if trailing || decide (d.frac > 0) then
-    ['.'] ++ (if trailing then fracDigits q d else stripZeros (fracDigits q d))
-  else (if alt then ['.'] else [])
+theorem dec_length_4000 (n : Nat) (h : n < 2 ^ 4000) : (dec n).length ≤ 4000 := by
+  have := (specDigits_length_le 10 n 4000 false (by omega) h).2
+  simpa [dec] using this
 
-/-- `render_float` never panics for a precision the guard of `format_code` lets through, and
-    writes sign, zero padding, integer digits, fraction -/
-theorem renderFloat_ok (neg : Bool) (d : FDig) (P q : Nat) (blank sign alt trailing : Bool)
+theorem digitChar_not_mark : ∀ k, k < 10 →
+    FormatSpec.digitChar false k ≠ '.' ∧ FormatSpec.digitChar false k ≠ 'e' := by decide
+
+theorem dec_mem (n : Nat) (x : Char) (hx : x ∈ dec n) : ∃ k, k < 10 ∧ x = FormatSpec.digitChar false k := by
+  have hall := digitsF_all_lt 10 (by omega) n n (Nat.le_refl _)
+  unfold dec specDigits digits at hx
+  rw [List.mem_map] at hx
+  obtain ⟨k, hk, rfl⟩ := hx
+  exact ⟨k, hall k hk, rfl⟩
+
+theorem dec_no_point (n : Nat) : '.' ∉ dec n := by
+  intro h
+  obtain ⟨k, hk, e⟩ := dec_mem n _ h
+  exact (digitChar_not_mark k hk).1 e.symm
+
+theorem dec_no_e (n : Nat) : 'e' ∉ dec n := by
+  intro h
+  obtain ⟨k, hk, e⟩ := dec_mem n _ h
+  exact (digitChar_not_mark k hk).2 e.symm
+
+theorem fracDigits_no_e (q : Nat) (d : FDig) : 'e' ∉ fracDigits q d := by
+  intro h
+  simp only [fracDigits, zeros, List.mem_append, List.mem_replicate] at h
+  rcases h with h | h
+  · exact absurd h.2 (by decide)
+  · exact dec_no_e _ h
+
+theorem plainText_no_e (q : Nat) (d : FDig) : 'e' ∉ FormatSpec.plainText q d := by
+  intro h
+  rw [plainText_eq] at h
+  by_cases hq : q = 0
+  · simp only [hq, if_true, List.append_nil] at h; exact dec_no_e _ h
+  · simp only [hq, if_false, List.mem_append, List.mem_cons] at h
+    rcases h with h | h | h
+    · exact dec_no_e _ h
+    · exact absurd h (by decide)
+    · exact fracDigits_no_e _ _ h
+
+/-- `split_once(c)` of a text whose first `c` is known -/
+theorem splitOnce_append (c : Char) (a b : List Char) (h : c ∉ a) :
+    splitOnce c (a ++ c :: b) = some (a, b) := by
+  induction a with
+  | nil => simp [splitOnce]
+  | cons x xs ih =>
+    have hx : x ≠ c := fun e => h (by simp [e])
+    have hxs : c ∉ xs := fun e => h (by simp [e])
+    simp [splitOnce, hx, ih hxs]
+
+theorem splitOnce_none (c : Char) (a : List Char) (h : c ∉ a) : splitOnce c a = none := by
+  induction a with
+  | nil => rfl
+  | cons x xs ih =>
+    have hx : x ≠ c := fun e => h (by simp [e])
+    have hxs : c ∉ xs := fun e => h (by simp [e])
+    simp [splitOnce, hx, ih hxs]
+
+/-- `digits.split_once('.').unwrap_or((digits, ""))` of a decimal number's text: the integer
+    digits and the `q` fraction digits -/
+theorem split_plain (q : Nat) (d : FDig) :
+    (splitOnce '.' (FormatSpec.plainText q d)).getD (FormatSpec.plainText q d, [])
+      = (dec d.whole, if q = 0 then [] else fracDigits q d) := by
+  rw [plainText_eq]
+  by_cases hq : q = 0
+  · simp only [hq, if_true, List.append_nil]
+    rw [splitOnce_none _ _ (dec_no_point _)]; rfl
+  · simp only [hq, if_false]
+    rw [splitOnce_append _ _ _ (dec_no_point _)]; rfl
+
+/-- the part after the integer digits as `render_float_digits` writes it -/
+def fracTail (q : Nat) (d : FDig) (alt trailing : Bool) : List Char :=
+  let f := if q = 0 then [] else fracDigits q d
+  let f := if trailing then f else stripZeros f
+  (if !f.isEmpty || alt then ['.'] else []) ++ f
+
+/-- `render_float_digits` never panics for a precision the guard of `format_code` lets through,
+    and writes sign, zero padding, integer digits, fraction -/
+theorem renderFloatDigits_ok (neg : Bool) (d : FDig) (P q : Nat) (blank sign alt trailing : Bool)
     (hq : q ≤ 308) (hd : DigOK q d) :
-    renderFloat neg d P q blank sign alt trailing =
+    renderFloatDigits neg (FormatSpec.plainText q d) P q blank sign alt trailing =
       .ok (signChars neg blank sign ++
         List.replicate (P - ((if q = 0 && !alt then 0 else 1) + q)
           - (if neg || blank || sign then 1 else 0) - (dec d.whole).length) '0'
         ++ dec d.whole ++ fracTail q d alt trailing) := by
-  obtain ⟨hw, hf, hfq⟩ := hd
-  unfold renderFloat
+  obtain ⟨hw, hfq⟩ := hd
+  unfold renderFloatDigits
+  rw [split_plain]
   have hno : ¬ ((if (q = 0 && !alt) = true then 0 else 1) + q > U16_MAX) := by
     unfold U16_MAX; split <;> omega
-  simp only [bind, Except.bind, hno, if_false, renderDecimal, pure, Except.pure]
-  rw [renderInteger_ok _ _ _ _ _ _ 10 [] false false (by omega) (by simp) hw]
+  simp only [bind, Except.bind, hno, if_false, pure, Except.pure]
+  rw [renderDigits_ok _ _ _ _ _ _ [] false (by simp) (by have := dec_length_4000 _ hw; omega)]
   simp only [List.length_nil, Nat.sub_zero, Nat.zero_add, Bool.false_eq_true, if_false,
-    List.append_nil, Nat.max_zero]
-  by_cases hq0 : q = 0
-  · subst hq0
-    simp only [if_true, fracTail, decide_true, Bool.true_and]
-    cases alt <;> simp
-  · have hq1 : 1 ≤ q := by omega
-    simp only [hq0, if_false, fracTail, decide_false, Bool.false_and, Bool.false_eq_true]
-    by_cases ht : (trailing || decide (d.frac > 0)) = true
-    · simp only [ht, if_true]
-      rw [renderInteger_ok _ _ _ _ _ _ 10 [] false false (by omega) (by simp) hf]
-      simp only [signChars, Bool.false_eq_true, if_false, List.nil_append, List.length_nil,
-        Nat.sub_zero, Nat.zero_add, Nat.max_zero, Bool.or_self, List.append_nil, trimZeros_eq,
-        List.append_assoc, fracDigits, zeros]
-    · simp only [ht, Bool.false_eq_true, if_false]
-      cases alt <;> simp
+    List.append_nil, Nat.max_zero, fracTail, trimZeros_eq, List.append_assoc]
+  rfl
 
-/-- what the reference writes after the integer digits equals what `render_float` writes -/
-theorem fixedText_eq (q : Nat) (d : FDig) (alt trailing : Bool) (h : d.frac < 10 ^ q) :
+/-- what the reference writes after the integer digits equals what `render_float_digits` writes -/
+theorem fixedText_eq (q : Nat) (d : FDig) (alt trailing : Bool) :
     FormatSpec.fixedText d q alt trailing = dec d.whole ++ fracTail q d alt trailing := by
   unfold FormatSpec.fixedText fracTail
-  by_cases hq0 : q = 0
-  · subst hq0
-    cases trailing <;> cases alt <;> simp [stripZeros, dec, specDigits]
-  · have hq1 : 1 ≤ q := by omega
-    have hF : (zeros (q - ((digits 10 d.frac).map (FormatSpec.digitChar false)).length) ++
-        (digits 10 d.frac).map (FormatSpec.digitChar false)) = fracDigits q d := rfl
-    simp only [hq0, if_false, hF]
-    have hlen := fracDigits_length q d hq1 h
-    cases trailing with
-    | true =>
-      have hne : fracDigits q d ≠ [] := by
-        intro e; rw [e] at hlen; simp at hlen; omega
-      simp [hne, dec, specDigits]
-    | false =>
-      simp only [Bool.false_or, Bool.false_eq_true, if_false]
-      by_cases hpos : d.frac > 0
-      · obtain ⟨x, hx, hx0⟩ := dec_pos_has_nonzero d.frac hpos
-        have hne : stripZeros (fracDigits q d) ≠ [] := by
-          intro e
-          rw [stripZeros_eq_nil_iff] at e
-          exact hx0 (e x (by simp [fracDigits, hx]))
-        simp [hne, hpos, dec, specDigits]
-      · have h0 : d.frac = 0 := by omega
-        have he : stripZeros (fracDigits q d) = [] := by
-          rw [stripZeros_eq_nil_iff]
-          intro x hx
-          simp only [fracDigits, h0, dec_zero, zeros, List.mem_append, List.mem_replicate,
-            List.mem_singleton] at hx
-          rcases hx with hx | hx
-          · exact hx.2
-          · exact hx
-        cases alt <;> simp [he, hpos, dec, specDigits]
+  have hF : (zeros (q - ((digits 10 d.frac).map (FormatSpec.digitChar false)).length) ++
+      (digits 10 d.frac).map (FormatSpec.digitChar false)) = fracDigits q d := rfl
+  simp only [hF]
+  generalize (if trailing = true then (if q = 0 then [] else fracDigits q d)
+    else stripZeros (if q = 0 then [] else fracDigits q d)) = f
+  cases f with
+  | nil => cases alt <;> simp [dec, specDigits]
+  | cons a l => simp [dec, specDigits]
 
 /-! ## exponent text -/
 
@@ -355,7 +398,7 @@ theorem g_fill (fl : Flags) (w : Nat) (neg : Bool) (c : Char) (r tail suf : List
     · simp only [if_true, List.length_append, List.append_assoc]
       congr 5; omega
 
-/-! ## the three float conversions -/
+/-! ## the float conversions, for all digit data -/
 
 theorem fracTail_length (q : Nat) (d : FDig) (alt : Bool) (h : d.frac < 10 ^ q) :
     (fracTail q d alt true).length = (if q = 0 && !alt then 0 else 1) + q := by
@@ -363,38 +406,43 @@ theorem fracTail_length (q : Nat) (d : FDig) (alt : Bool) (h : d.frac < 10 ^ q) 
   by_cases hq0 : q = 0
   · subst hq0; cases alt <;> simp
   · have := fracDigits_length q d (by omega) h
-    simp [hq0, this]; omega
+    have hne : (fracDigits q d).isEmpty = false := by
+      cases hf : fracDigits q d with
+      | nil => rw [hf] at this; simp at this; omega
+      | cons a l => rfl
+    simp [hq0, this, hne]; omega
 
-/-- `%f` / `%F` after digit generation -/
+/-- `%f` / `%F` given the text of ANY digit data -/
 theorem float_core_fixed (fl : Flags) (w : Nat) (neg : Bool) (d : FDig) (q : Nat) (alt : Bool)
     (hq : q ≤ 308) (hd : DigOK q d) :
-    (renderFloat neg d (if fl.zero && !fl.left then w else 0) q fl.blank fl.sign alt true).map (padOut fl w)
+    (renderFloatDigits neg (FormatSpec.plainText q d) (if fl.zero && !fl.left then w else 0) q
+        fl.blank fl.sign alt true).map (padOut fl w)
       = .ok (FormatSpec.floatConv fl w neg (FormatSpec.fixedText d q alt true) []) := by
-  rw [renderFloat_ok _ _ _ _ _ _ _ _ hq hd, fixedText_eq _ _ _ _ hd.2.2]
+  rw [renderFloatDigits_ok _ _ _ _ _ _ _ _ hq hd, fixedText_eq]
   simp only [Except.map]
   have := float_fill fl w
     ((if fl.zero && !fl.left then w else 0) - ((if q = 0 && !alt then 0 else 1) + q)
       - (if neg || fl.blank || fl.sign then 1 else 0) - (dec d.whole).length)
     neg (dec d.whole) (fracTail q d alt true) []
-    (by rw [fracTail_length _ _ _ hd.2.2, signChars_length]; simp)
+    (by rw [fracTail_length _ _ _ hd.2, signChars_length]; simp)
   simp only [List.append_nil] at this
   rw [← this]
 
-/-- `%e` / `%E` after digit generation -/
+/-- `%e` / `%E` given the text of ANY digit data and any exponent -/
 theorem float_core_sci (fl : Flags) (w : Nat) (neg : Bool) (e : Int) (d : FDig) (q : Nat) (alt caps : Bool)
     (hq : q ≤ 308) (hd : DigOK q d) (he : e.natAbs < DBL_BOUND) :
-    (renderFloatSci neg e d (if fl.zero && !fl.left then w else 0) q fl.blank fl.sign alt true caps).map
-        (padOut fl w)
+    (renderSciDigits neg (FormatSpec.plainText q d) e (if fl.zero && !fl.left then w else 0) q
+        fl.blank fl.sign alt true caps).map (padOut fl w)
       = .ok (FormatSpec.floatConv fl w neg (FormatSpec.fixedText d q alt true) (FormatSpec.expText caps e)) := by
-  unfold renderFloatSci
+  unfold renderSciDigits
   simp only [bind, Except.bind, expStr_ok e he, pure, Except.pure]
-  rw [renderFloat_ok _ _ _ _ _ _ _ _ hq hd, fixedText_eq _ _ _ _ hd.2.2, expText_eq]
+  rw [renderFloatDigits_ok _ _ _ _ _ _ _ _ hq hd, fixedText_eq, expText_eq]
   simp only [Except.map]
   have := float_fill fl w
     ((if fl.zero && !fl.left then w else 0) - ((expTail e).length + 1) - ((if q = 0 && !alt then 0 else 1) + q)
       - (if neg || fl.blank || fl.sign then 1 else 0) - (dec d.whole).length)
     neg (dec d.whole) (fracTail q d alt true) ([if caps then 'E' else 'e'] ++ expTail e)
-    (by rw [fracTail_length _ _ _ hd.2.2, signChars_length]
+    (by rw [fracTail_length _ _ _ hd.2, signChars_length]
         simp only [List.length_append, List.length_singleton, List.length_cons, List.length_nil]
         omega)
   simp only [List.append_assoc] at this ⊢
@@ -403,10 +451,10 @@ theorem float_core_sci (fl : Flags) (w : Nat) (neg : Bool) (e : Int) (d : FDig) 
 /-- `%g` fixed form: rendered without padding, zero filled afterwards -/
 theorem g_core_fixed (fl : Flags) (w : Nat) (neg : Bool) (d : FDig) (q : Nat) (alt : Bool)
     (hq : q ≤ 308) (hd : DigOK q d) :
-    (renderFloat neg d 0 q fl.blank fl.sign alt alt).map
+    (renderFloatDigits neg (FormatSpec.plainText q d) 0 q fl.blank fl.sign alt alt).map
         (fun t => padOut fl w (zeroFill (if fl.zero && !fl.left then w else 0) t))
       = .ok (FormatSpec.floatConv fl w neg (FormatSpec.fixedText d q alt alt) []) := by
-  rw [renderFloat_ok _ _ _ _ _ _ _ _ hq hd, fixedText_eq _ _ _ _ hd.2.2]
+  rw [renderFloatDigits_ok _ _ _ _ _ _ _ _ hq hd, fixedText_eq]
   simp only [Except.map, Nat.zero_sub, List.replicate_zero, List.append_nil]
   obtain ⟨c, r, e, hc⟩ := dec_head d.whole
   rw [e]
@@ -417,101 +465,17 @@ theorem g_core_fixed (fl : Flags) (w : Nat) (neg : Bool) (d : FDig) (q : Nat) (a
 /-- `%g` exponent form -/
 theorem g_core_sci (fl : Flags) (w : Nat) (neg : Bool) (e : Int) (d : FDig) (q : Nat) (alt caps : Bool)
     (hq : q ≤ 308) (hd : DigOK q d) (he : e.natAbs < DBL_BOUND) :
-    (renderFloatSci neg e d 0 q fl.blank fl.sign alt alt caps).map
+    (renderSciDigits neg (FormatSpec.plainText q d) e 0 q fl.blank fl.sign alt alt caps).map
         (fun t => padOut fl w (zeroFill (if fl.zero && !fl.left then w else 0) t))
       = .ok (FormatSpec.floatConv fl w neg (FormatSpec.fixedText d q alt alt) (FormatSpec.expText caps e)) := by
-  unfold renderFloatSci
+  unfold renderSciDigits
   simp only [bind, Except.bind, expStr_ok e he, pure, Except.pure]
-  rw [renderFloat_ok _ _ _ _ _ _ _ _ hq hd, fixedText_eq _ _ _ _ hd.2.2, expText_eq]
+  rw [renderFloatDigits_ok _ _ _ _ _ _ _ _ hq hd, fixedText_eq, expText_eq]
   simp only [Except.map, Nat.zero_sub, List.replicate_zero, List.append_nil]
   obtain ⟨c, r, e', hc⟩ := dec_head d.whole
   rw [e']
   have := g_fill fl w neg c r (fracTail q d alt alt) ([if caps then 'E' else 'e'] ++ expTail e) hc
   simp only [List.append_assoc] at this ⊢
   rw [← this]
-
-/-- the oracle data of a number is what the digit pipeline can produce -/
-def OracleOK (n : Num) : Prop :=
-  (∀ q d, n.fix.lookup q = some d → DigOK q d) ∧ (∀ q d, n.sci.lookup q = some d → DigOK q d) ∧
-    n.exp.natAbs < DBL_BOUND
-
-theorem lookupDig_eq (l : List (Nat × FDig)) (p : Nat) : lookupDig l p = FormatSpec.lookupDig l p := rfl
-
-theorem lookupDig_ok (l : List (Nat × FDig)) (p : Nat) (d : FDig) (h : FormatSpec.lookupDig l p = .ok d) :
-    l.lookup p = some d := by
-  unfold FormatSpec.lookupDig at h
-  cases hl : l.lookup p with
-  | none => rw [hl] at h; cases h
-  | some x => rw [hl] at h; injection h with h; rw [h]
-
-/-- e/E/f/F/g/G: model = reference for every flag set, width, precision and all digit data -/
-theorem formatCode_float (n : Num) (disp : List Char) (c : Code) (w : Nat) (p : Option Nat)
-    (hc : c.conv = .sci ∨ c.conv = .flt ∨ c.conv = .shorter) (ho : OracleOK n) :
-    formatCode (.num n disp) c w p = FormatSpec.conv c w p (.num n disp) := by
-  obtain ⟨hfix, hsci, hexp⟩ := ho
-  rw [formatCode_unfold]
-  unfold formatBody FormatSpec.conv
-  delta FMT_DEFAULT_FPPREC FMT_MAX_FPPREC FMT_G_LOW_EXP FormatSpec.maxFloatPrec
-  simp only [Val.asNum, FormatSpec.needNum, lookupDig_eq]
-  by_cases hbig : p.getD 6 > 308
-  · rcases hc with h | h | h <;>
-      simp [h, hbig, Except.map, bind, Except.bind, throw, throwThe, MonadExceptOf.throw]
-  · have hle : p.getD 6 ≤ 308 := by omega
-    rcases hc with h | h | h
-    · -- %e
-      simp only [h, hbig, decide_false, Bool.false_and, Bool.false_eq_true, if_false, bind, Except.bind,
-        pure, Except.pure]
-      cases hl : FormatSpec.lookupDig n.sci (p.getD 6) with
-      | error e => rfl
-      | ok d =>
-        have hd := hsci _ _ (lookupDig_ok _ _ _ hl)
-        simp only []
-        rw [float_core_sci c.flags w n.neg n.exp d _ c.flags.alt c.caps hle hd hexp]
-    · -- %f
-      simp only [h, hbig, decide_false, Bool.false_and, Bool.false_eq_true, if_false, bind, Except.bind,
-        pure, Except.pure]
-      cases hl : FormatSpec.lookupDig n.fix (p.getD 6) with
-      | error e => rfl
-      | ok d =>
-        have hd := hfix _ _ (lookupDig_ok _ _ _ hl)
-        simp only []
-        rw [float_core_fixed c.flags w n.neg d _ c.flags.alt hle hd]
-    · -- %g
-      simp only [h, hbig, decide_false, Bool.false_and, Bool.false_eq_true, if_false, bind, Except.bind,
-        pure, Except.pure]
-      have hm : max (p.getD 6) 1 - 1 ≤ 308 := by omega
-      by_cases hform : (decide (n.exp < -((4 : Nat) : Int)) || decide (n.exp ≥ ((max (p.getD 6) 1 : Nat) : Int))) = true
-      · have hform' : (decide (n.exp < -4) || decide (n.exp ≥ ((max (p.getD 6) 1 : Nat) : Int))) = true := hform
-        simp only [hform, hform', if_true]
-        cases hl : FormatSpec.lookupDig n.sci (max (p.getD 6) 1 - 1) with
-        | error e => rfl
-        | ok d =>
-          have hd := hsci _ _ (lookupDig_ok _ _ _ hl)
-          have := g_core_sci c.flags w n.neg n.exp d _ c.flags.alt c.caps hm hd hexp
-          simp only [] at this ⊢
-          cases hr : renderFloatSci n.neg n.exp d 0 (max (p.getD 6) 1 - 1) c.flags.blank c.flags.sign
-              c.flags.alt c.flags.alt c.caps with
-          | error e => rw [hr] at this; cases this
-          | ok t =>
-            rw [hr] at this
-            simp only [Except.map, Except.ok.injEq] at this
-            simp only [Except.map, this]
-      · simp only [Bool.not_eq_true] at hform
-        have hform' : (decide (n.exp < -4) || decide (n.exp ≥ ((max (p.getD 6) 1 : Nat) : Int))) = false := hform
-        simp only [hform, hform', Bool.false_eq_true, if_false]
-        have hm2 : max (p.getD 6) 1 - max 1 (n.exp.toNat + 1) ≤ 308 := by omega
-        cases hl : FormatSpec.lookupDig n.fix (max (p.getD 6) 1 - max 1 (n.exp.toNat + 1)) with
-        | error e => rfl
-        | ok d =>
-          have hd := hfix _ _ (lookupDig_ok _ _ _ hl)
-          have := g_core_fixed c.flags w n.neg d _ c.flags.alt hm2 hd
-          simp only [] at this ⊢
-          cases hr : renderFloat n.neg d 0 (max (p.getD 6) 1 - max 1 (n.exp.toNat + 1)) c.flags.blank
-              c.flags.sign c.flags.alt c.flags.alt with
-          | error e => rw [hr] at this; cases this
-          | ok t =>
-            rw [hr] at this
-            simp only [Except.map, Except.ok.injEq] at this
-            simp only [Except.map, this]
 
 end JrsVerif.Format
